@@ -140,18 +140,25 @@ def run_case(case):
         dry = os.path.join(d, "dry")
         shutil.copytree(basep, dry)
         fs = FaultFS()
+        existing = {os.path.relpath(p, basep) for p in _data_files(basep)}
+        err = None
         try:
             _append(dry, df1, case, fs)
+        except Exception as e:
+            err = e
+        # whatever else happened, a data file the dataset already had must not have been opened for writing
+        bad = _opens_existing(fs.events, dry, existing)
+        if bad:
+            return viol("opens_existing_data_file|fault_free", bad, labels=labels)
+        if err is not None:
+            return discard("fault_free_append_raised:" + exc_sig(err), labels)
+        try:
             new = _content(dry)
         except Exception as e:
-            return discard("fault_free_append_raised:" + exc_sig(e), labels)
+            return discard("fault_free_append_unreadable:" + exc_sig(e), labels)
         if len(new) != len(old) + len(_content_rows(df1, case)):
             return discard("fault_free_append_rowcount(C07)", labels)
         events = fs.events
-        existing = {os.path.relpath(p, basep) for p in _data_files(basep)}
-        bad = _opens_existing(events, dry, existing)
-        if bad:
-            return viol("opens_existing_data_file|fault_free", bad, labels=labels)
         try:
             kmeta = next(i for i, (kind, p, info) in enumerate(events, 1) if kind == "open_w" and p.endswith("_metadata"))
         except StopIteration:
